@@ -392,6 +392,12 @@ def _string_cases():
             out.append("a\x1b[" + ";".join(map(str, ps)) + "mb")
     for extra in ("\x1b[1;m", "\x1b[;m", "\x1b[31;m", "\x1b[;1m", "\x1b[0;;1m", "\x1b[;;m", "\x1b[38;2;10;20m", "\x1b[48;2;1;2;3m", "\x1b[38;5m", "\x1b[1;38m", "\x1b[38;2m", "\x1b[48;5;7;1m"):
         out.append("a" + extra + "b")
+    # a bare ESC (or a two-character escape) in the text, with supported sequences before / after it
+    for lone in ("\x1bz", "\x1b", "\x1bA", "\x1b\n"):
+        for sgr in ("\x1b[31m", "\x1b[1;44m", "\x1b[0m"):
+            out.append("a" + lone + "b" + sgr + "c")
+            out.append(sgr + "a" + lone + "b" + "\x1b[0m")
+            out.append("a" + lone + sgr + "c")
     for pre in ("", "a"):
         for fr in FRAGMENTS:
             for un in UNSUPPORTED:
